@@ -17,7 +17,7 @@ RULE = (
     "(shape, observed pattern, k, batch set); non-trivial = the batch is non-empty or some sample has fewer than k plates"
 )
 ASSUMPTIONS = ["states are memoised on the set of batch plates (quick: <=9 plates; thorough: always) or on per-sample batch counts (larger shapes)"]
-REQUIRED = {"walk_steps_with_mostly_posinf_scores": {"quick": 80, "thorough": 1200}, "screens_with_interleaved_plate_ids": {"quick": 60, "thorough": 400}, "holders_not_in_plate_id_order": {"quick": 1000, "thorough": 8000}, "states_checked": {"quick": 3000, "thorough": 20000}, "walk_steps": {"quick": 300, "thorough": 5000}, "multi_sample_refusals": {"quick": 40, "thorough": 250}, "multi_sample_layout_1": {"quick": 6, "thorough": 40}, "batches_revealed_in_place": {"quick": 60, "thorough": 800}}
+REQUIRED = {"multi_sample_refusals_after_earlier_calls": {"quick": 40, "thorough": 300}, "walk_steps_with_mostly_posinf_scores": {"quick": 80, "thorough": 1200}, "screens_with_interleaved_plate_ids": {"quick": 60, "thorough": 400}, "holders_not_in_plate_id_order": {"quick": 1000, "thorough": 8000}, "states_checked": {"quick": 3000, "thorough": 20000}, "walk_steps": {"quick": 300, "thorough": 5000}, "multi_sample_refusals": {"quick": 40, "thorough": 250}, "multi_sample_layout_1": {"quick": 6, "thorough": 40}, "batches_revealed_in_place": {"quick": 60, "thorough": 800}}
 
 
 def build_screen(Screen, shape, observed_plates=(), multi=None, multi_where=2, perm=None):
@@ -287,6 +287,56 @@ def run_shard(rec, tier, seed, shard, nshards):
             pass
         except Exception as e:
             rec.violation("C16/multi-sample/wrong-exception", "multi-sample plate raised %r instead of ValueError" % (e,), {"shape": list(shape)})
+
+    # ------------------------------------------------ multi-sample plates refused by a policy object with a past
+    for hi in range(12 if tier == "quick" else 60):
+        shape = tuple(int(x) for x in rng.integers(1, 4, size=int(rng.integers(2, 5))))
+        tot = sum(shape)
+        variant = ["merge", "observed-in-batch", "other-screen"][hi % 3]
+        k = int(rng.integers(1, 4))
+        policy = KPerSamplePlatePolicy(k)
+        w = {"shape": list(shape), "k": k, "history": variant}
+        rec.case(("multi-past", shape, variant, hi))
+        try:
+            if variant == "observed-in-batch":
+                # the initial plate (observed, two samples) is listed among the batch's plates on a later call
+                bad = int(rng.integers(tot))
+                screen = build_screen(Screen, shape, (bad,), multi=bad, multi_where=hi % 6)
+                unobserved = sorted(int(p.plate_id) for p in screen.plates if not p.is_observed)
+                bad_id = [int(p.plate_id) for p in screen.plates if p.is_observed][0]
+                if not unobserved:
+                    continue
+                _r, sel = step(screen, policy, unobserved, (), best=None)  # every plate handed over holds one sample
+                later_batch = (bad_id,) if sel is None else (sel, bad_id)
+            else:
+                screen = build_screen(Screen, shape, ())
+                unobserved = sorted(int(p.plate_id) for p in screen.plates)
+                _r, sel = step(screen, policy, unobserved, (), best=None)
+                if sel is not None and rng.random() < 0.5:
+                    step(screen, policy, unobserved, (sel,), best=None)
+                if variant == "merge":
+                    # two plates of different samples are merged in place on the same Screen object
+                    pls = screen.plates
+                    a_ = pls[int(rng.integers(len(pls)))]
+                    others = [p for p in pls if int(p.sample_ids[0]) != int(a_.sample_ids[0])]
+                    a_.merge(others[int(rng.integers(len(others)))])
+                else:
+                    # the same policy object is asked about another screen that has a two-sample plate
+                    screen = build_screen(Screen, shape, (), multi=int(rng.integers(tot)), multi_where=hi % 6)
+                unobserved = sorted(int(p.plate_id) for p in screen.plates)
+                later_batch = ()
+        except Exception as e:
+            rec.did_not_return("multi-past-setup", e)
+            continue
+        rec.count("multi_sample_refusals_after_earlier_calls")
+        rec.count("oracle_evals")
+        try:
+            step(screen, policy, [p for p in unobserved if p not in later_batch], later_batch, best=None)
+            rec.violation("C16/multi-sample/accepted", "a plate with two samples was accepted by a policy object that had answered for single-sample plates before (%s)" % variant, w)
+        except ValueError:
+            pass
+        except Exception as e:
+            rec.violation("C16/multi-sample/wrong-exception", "multi-sample plate raised %r instead of ValueError (%s)" % (e, variant), w)
 
 
 def coverage_extra(tier, counters):
